@@ -35,6 +35,7 @@ fn handle(case: &Value) -> Value {
         "panic_run" => builder::panic_run(case),
         "compile_eval" => lang::compile_eval(case),
         "literal_check" => lit::literal_check(case),
+        "compile_repeat" => lang::compile_repeat(case),
         _ => json!({"error": format!("unknown op {op}")}),
     }
 }
